@@ -24,6 +24,26 @@ def engine(E):
     E.props_default = frozenset({'C15'})
 
 
+# which other property reads each option (the option form / the direct form must hand it over for THAT property
+# to hold for decorated functions too)
+OPTION_PROPS = {'cache': {'C14'}, 'timeout': {'C08'}, 'max_batch_size': {'C10'}, 'max_concurrent_batches': {'C10'},
+                'batch_timeout': {'C10'}, 'retention_timeout': {'C11'}}
+
+
+def oprops(name):
+    return {'C15'} | OPTION_PROPS.get(name, set())
+
+
+def same_value(E, a, b):
+    """the value bound is the value given (identity for objects, equality for literals)"""
+    if a is b or (isinstance(a, VNone) and isinstance(b, VNone)):
+        return True
+    for T in (VInt, VReal, VBool, VStr):
+        if isinstance(a, T) and isinstance(b, T):
+            return z3.is_true(z3.simplify(a.t == b.t))
+    return False
+
+
 def fresh_opt(E, name):
     if 'size' in name or 'concurrent' in name:
         return E.fresh_int(name)
@@ -38,6 +58,7 @@ def t_options_forms(E):
     E.cur_func = MOD + '.<decorators>'
 
     def body():
+        E.builtins['__dict_literal__'] = lambda E_, pairs: Obj('PyDict', dict(pairs=list(pairs)))
         for d in DECOS:
             fn = mod.functions.get(d)
             if fn is None:
@@ -55,10 +76,22 @@ def t_options_forms(E):
                 continue
             for p in fn.args.kwonlyargs:
                 E.oblige('%s/ensures.partial_binds[%s]' % (f.qualname, p.arg),
-                         z3.BoolVal(r.kwargs.get(p.arg) is opts[p.arg]),
+                         z3.BoolVal(r.kwargs.get(p.arg) is opts[p.arg]), props=oprops(p.arg),
                          detail='every keyword-only parameter of the decorator must be re-bound with the value given')
             E.oblige(f.qualname + '/ensures.partial_binds_nothing_else',
                      z3.BoolVal(set(r.kwargs) <= set(opts)))
+            # the options form with NO option given: whatever it binds must be the documented default itself (a
+            # default replaced early, e.g. None by a fresh dict, is then shared by everything decorated with it)
+            r0 = E.call(f, [NONE], {})
+            ok0 = isinstance(r0, VPartial) and isinstance(r0.func, VFunc) and r0.func.node is fn and not r0.args
+            E.oblige(f.qualname + '/ensures.options_form_without_options_returns_partial_of_itself', z3.BoolVal(bool(ok0)))
+            if ok0:
+                fr0 = Frame(None, mod, None, mod.name)
+                for p, dflt in zip(fn.args.kwonlyargs, fn.args.kw_defaults):
+                    if p.arg in r0.kwargs and dflt is not None:
+                        E.oblige('%s/ensures.partial_binds_the_default_unchanged[%s]' % (f.qualname, p.arg),
+                                 z3.BoolVal(bool(same_value(E, r0.kwargs[p.arg], E.eval(dflt, fr0)))),
+                                 props=oprops(p.arg))
     E.run_paths(body)
 
 
@@ -184,7 +217,7 @@ def t_batcher_direct(E):
             E.oblige(W + '/ensures.batcher_wraps_the_decorated_function', z3.BoolVal(b.fields['func'] is func))
             for p in fn.args.kwonlyargs:
                 E.oblige('%s/ensures.option_reaches_the_batcher[%s]' % (W, p.arg),
-                         z3.BoolVal(b.fields['kw'].get(p.arg) is opts[p.arg]),
+                         z3.BoolVal(b.fields['kw'].get(p.arg) is opts[p.arg]), props=oprops(p.arg),
                          detail='AsyncBackgroundBatcher(...) must be constructed with the decorator parameter of the same name')
         for (b, a, k) in called:
             E.oblige(W + '/ensures.forwards_argument_and_key', z3.BoolVal(len(a) == 1 and a[0] is arg and
@@ -228,7 +261,9 @@ def t_batcher_init(E):
         q = F.get('_queue')
         E.oblige(f.qualname + '/ensures.queue_is_a_plain_unbounded_FIFO_queue',
                  z3.BoolVal(isinstance(q, Obj) and q.cls == 'AQueue' and isinstance(q.fields['maxsize'], VInt)
-                            and q.fields['maxsize'].concrete() == 0), props={'C10', 'C09', 'C11'})
+                            and q.fields['maxsize'].concrete() == 0), props={'C10', 'C09', 'C11', 'C04'},
+                 detail='__call__ registers the key and only then puts: a put that can block (bounded queue) or reorder '
+                        'breaks the accounting of every caller')
         rc = F.get('_retention_cache')
         E.oblige(f.qualname + '/ensures.retention_cache_starts_empty', z3.BoolVal(isinstance(rc, Obj) and rc.cls == 'PyDict'),
                  props={'C11'})
@@ -244,8 +279,8 @@ def t_batcher_init(E):
 
 
 TASKS = {
-    'decorators.options_forms': (t_options_forms, {'C15'}),
+    'decorators.options_forms': (t_options_forms, {'C15', 'C08', 'C10', 'C11', 'C14'}),
     'decorators.buffer_direct': (t_buffer_direct, {'C15', 'C08', 'C07'}),
-    'decorators.batcher_direct': (t_batcher_direct, {'C15'}),
+    'decorators.batcher_direct': (t_batcher_direct, {'C15', 'C10', 'C11'}),
     'decorators.batcher_init': (t_batcher_init, {'C15', 'C10', 'C11', 'C04', 'C09'}),
 }
